@@ -28,6 +28,8 @@ fn main() {
         ("drive", "numfmt") => props::numfmt::drive(&args),
         ("replay", "numfmt_builtin") => props::numfmt::builtin_files(&args),
         ("drive", "dates") => props::dates::drive(&args),
+        ("replay", "xlsx_tables") => props::xlsx_tables::replay(&args),
+        ("drive", "xlsx_tables") => props::xlsx_tables::drive(&args),
         ("replay", "de") => props::de::replay(&args),
         ("drive", "de") => props::de::drive(&args),
         _ => {
